@@ -121,22 +121,27 @@ def addr_ops(chk):
             exact(chk, '%s - u64' % tagc, outs, None, b, 'rhs', -1, fn_)
             # a - b
             fn_ = '<%s as core::ops::Sub>::sub' % T
-            st = State()
-            v, b = inp(st)
-            if mk == 'virt':
-                b2, r2 = half_va('b', half)
-            else:
-                b2, r2 = phys('b')
-            v2 = Struct(T, [b2])
-            declare(st, v2, {'b': r2})
-            outs = run_case(chk, fn_, [v, v2], st)
-            no_wrap(chk, '%s - %s' % (tagc, tn), outs, fn_site(I, fn_))
-            rets = [o for o in outs if o.kind == 'ret']
-            ok = len(rets) == 1 and all(o.kind == 'panic' for o in outs if o not in rets)
-            if ok:
-                af = I.exact_aff(rets[0].st, rets[0].val)
-                ok = I.aff_equal(rets[0].st, af, I.aff_of(rets[0].st, b).add(I.aff_of(rets[0].st, b2), -1))
-            chk.ob('exact-result', '%s - %s = exact difference, or panic' % (tagc, tn), ok, 'paths %r' % (outs,), fn_site(I, fn_))
+            # the subtrahend from either half (an upper-half address minus a lower-half one is a 64-bit difference, not a 48-bit one)
+            for half2 in (('lower', 'upper') if mk == 'virt' else (None,)):
+                st = State()
+                v, b = inp(st)
+                if mk == 'virt':
+                    b2, r2 = half_va('b', half2)
+                else:
+                    b2, r2 = phys('b')
+                v2 = Struct(T, [b2])
+                declare(st, v2, {'b': r2})
+                outs = run_case(chk, fn_, [v, v2], st)
+                tag2 = '%s - %s%s' % (tagc, tn, (' (%s)' % half2) if half2 else '')
+                no_wrap(chk, tag2, outs, fn_site(I, fn_))
+                rets = [o for o in outs if o.kind == 'ret']
+                # lower - upper always underflows: every path panics
+                impossible = mk == 'virt' and half == 'lower' and half2 == 'upper'
+                ok = (len(rets) == 1 or (impossible and not rets)) and all(o.kind == 'panic' for o in outs if o not in rets) and bool(outs)
+                if ok and rets:
+                    af = I.exact_aff(rets[0].st, rets[0].val)
+                    ok = I.aff_equal(rets[0].st, af, I.aff_of(rets[0].st, b).add(I.aff_of(rets[0].st, b2), -1))
+                chk.ob('exact-result', '%s = exact difference, or panic' % tag2, ok, 'paths %r' % (outs,), fn_site(I, fn_))
         # assign forms delegate
         for tr, op in (('AddAssign', 'add'), ('SubAssign', 'sub')):
             fn_ = '<%s as core::ops::%s<u64>>::%s_assign' % (T, tr, op)
